@@ -169,7 +169,9 @@ pub fn siqs(
     if rels.len() > fbase.len() + relations::MIN_KERNEL_SIZE {
         rels.truncate(fbase.len() + relations::MIN_KERNEL_SIZE)
     }
-    if s.gap.load(Ordering::Relaxed) != 0 && rels.len() <= fbase.len() {
+    // s.gap is stored by racing workers: a stale non-zero value can land after
+    // another worker stored 0, so recompute the gap from the final relation set.
+    if rels.len() <= fbase.len() && rels.gap(&fbase) != 0 {
         panic!("Internal error: not enough smooth numbers with selected parameters (n={n})");
     }
     let rels = rels.into_inner();
